@@ -123,3 +123,109 @@ Proof.
         rewrite (pick_field k (p_fields p) acc) by (apply (Hp p (or_introl eq_refl))). rewrite IH by (intros q Hq; apply Hp; right; exact Hq). rewrite <- app_assoc. reflexivity. }
     rewrite G; [reflexivity|]. intros p Hp. apply Hw. unfold in_meas in Hp. apply filter_In in Hp. apply Hp.
 Qed.
+
+(* ---------- get_tag_values ---------- *)
+Definition canon_dict (d : list (str * list (option str))) : list (str * list (option str)) :=
+  map (fun k => (k, d_get [] k d)) (sort_dedup (map fst d)).
+
+(* {i: f(j) for i, j in d.items()} on a dict (distinct keys): the values mapped, keys and their order kept *)
+Lemma mapvals_loop (f : list (option str) -> list (option str)) : forall (suf pre : list (str * list (option str))), NoDup (map fst (pre ++ suf)) ->
+  fold_left (fun acc (ij : str * list (option str)) => d_set (fst ij) (f (snd ij)) acc) suf (map_vals f pre) = map_vals f (pre ++ suf).
+Proof.
+  induction suf as [|[k v] suf IH]; intros pre Hn; cbn [fold_left fst snd]. - rewrite app_nil_r. reflexivity.
+  - assert (Hk : d_has k (map_vals f pre) = false).
+    { rewrite (d_has_keys k _ pre (map_vals_keys f pre)). apply (d_has_false pyeq_str_eq). rewrite map_app in Hn. apply NoDup_remove_2 in Hn. intros H. apply Hn. apply in_or_app. left. exact H. }
+    rewrite (d_set_fresh _ k (f v) Hk). rewrite (map_vals_snoc f pre k v). rewrite IH; rewrite <- app_assoc; [reflexivity | exact Hn].
+Qed.
+Lemma d_get_map_vals (f : list (option str) -> list (option str)) (Hf : f [] = []) k : forall d : list (str * list (option str)), d_get [] k (map_vals f d) = f (d_get [] k d).
+Proof. induction d as [|[k0 v0] d IH]; cbn [map_vals map d_get fst snd]. - symmetry. exact Hf. - destruct (pyeq k k0); [reflexivity | exact IH]. Qed.
+Lemma canon_dict_mapvals d : canon_dict (map_vals sort_none_last d) = canon_tv d.
+Proof. unfold canon_dict, canon_tv. rewrite map_vals_keys. apply map_ext. intros k. rewrite (d_get_map_vals sort_none_last eq_refl). reflexivity. Qed.
+
+(* the scan: for tk, tv in point.tags.items(): if wanted(tk): rst[tk] gets tv *)
+Lemma dadd_alt2 k v (rst : list (str * list (option str))) : d_set k (if d_has k rst then set_union_s (d_get [] k rst) [v] else [v]) rst = dadd k v rst.
+Proof. unfold dadd. destruct (d_has k rst) eqn:E; [reflexivity|]. rewrite (d_get_absent k [] rst E). reflexivity. Qed.
+Lemma DS_addpairs (c : str -> bool) : forall (l : list (str * option str)) rst Kp Vp, DS rst Kp Vp ->
+  DS (fold_left (fun rst (kv : str * option str) => if c (fst kv) then dadd (fst kv) (snd kv) rst else rst) l rst)
+     (fun k' => Kp k' \/ (c k' = true /\ exists v, In (k', v) l)) (fun k' v' => Vp k' v' \/ (c k' = true /\ In (k', v') l)).
+Proof.
+  induction l as [|[k v] l IH]; intros rst Kp Vp H; cbn [fold_left fst snd].
+  - apply (DS_ext rst Kp Vp); [intros k'; split; [intros H'; left; exact H' | intros [H'|[_ [v []]]]; exact H'] | intros k' v'; split; [intros H'; left; exact H' | intros [H'|[_ []]]; exact H'] | exact H].
+  - destruct (c k) eqn:E.
+    + apply (DS_ext _ _ _ _ _) with (3 := IH _ _ _ (DS_dadd rst Kp Vp k v H)).
+      * intros k'. cbn [In]. split.
+        -- intros [[H'|H']|[H1 [v0 H2]]]; [left; exact H' | subst k'; right; split; [exact E | exists v; left; reflexivity] | right; split; [exact H1 | exists v0; right; exact H2]].
+        -- intros [H'|[H1 [v0 [H2|H2]]]]; [left; left; exact H' | inversion H2; subst; left; right; reflexivity | right; split; [exact H1 | exists v0; exact H2]].
+      * intros k' v'. cbn [In]. split.
+        -- intros [[H'|[H1 H2]]|[H1 H2]]; [left; exact H' | subst k' v'; right; split; [exact E | left; reflexivity] | right; split; [exact H1 | right; exact H2]].
+        -- intros [H'|[H1 [H2|H2]]]; [left; left; exact H' | inversion H2; subst; left; right; split; reflexivity | right; split; assumption].
+    + apply (DS_ext _ _ _ _ _) with (3 := IH _ _ _ H).
+      * intros k'. cbn [In]. split.
+        -- intros [H'|[H1 [v0 H2]]]; [left; exact H' | right; split; [exact H1 | exists v0; right; exact H2]].
+        -- intros [H'|[H1 [v0 [H2|H2]]]]; [left; exact H' | inversion H2; subst; congruence | right; split; [exact H1 | exists v0; exact H2]].
+      * intros k' v'. cbn [In]. split.
+        -- intros [H'|[H1 H2]]; [left; exact H' | right; split; [exact H1 | right; exact H2]].
+        -- intros [H'|[H1 [H2|H2]]]; [left; exact H' | inversion H2; subst; congruence | right; split; assumption].
+Qed.
+Lemma DS_rows (c : str -> bool) : forall (pts : list point) rst Kp Vp, DS rst Kp Vp ->
+  DS (fold_left (fun rst p => fold_left (fun rst (kv : str * option str) => if c (fst kv) then dadd (fst kv) (snd kv) rst else rst) (p_tags p) rst) pts rst)
+     (fun k' => Kp k' \/ (c k' = true /\ exists p v, In p pts /\ In (k', v) (p_tags p))) (fun k' v' => Vp k' v' \/ (c k' = true /\ exists p, In p pts /\ In (k', v') (p_tags p))).
+Proof.
+  induction pts as [|p pts IH]; intros rst Kp Vp H; cbn [fold_left].
+  - apply (DS_ext rst Kp Vp); [intros k'; split; [intros H'; left; exact H' | intros [H'|[_ [p [v [[] _]]]]]; exact H'] | intros k' v'; split; [intros H'; left; exact H' | intros [H'|[_ [p [[] _]]]]; exact H'] | exact H].
+  - apply (DS_ext _ _ _ _ _) with (3 := IH _ _ _ (DS_addpairs c (p_tags p) rst Kp Vp H)).
+    + intros k'. cbn [In]. split.
+      * intros [[H'|[H1 [v H2]]]|[H1 [q [v [H2 H3]]]]]; [left; exact H' | right; split; [exact H1 | exists p, v; split; [left; reflexivity | exact H2]] | right; split; [exact H1 | exists q, v; split; [right; exact H2 | exact H3]]].
+      * intros [H'|[H1 [q [v [[H2|H2] H3]]]]]; [left; left; exact H' | subst q; left; right; split; [exact H1 | exists v; exact H3] | right; split; [exact H1 | exists q, v; split; assumption]].
+    + intros k' v'. cbn [In]. split.
+      * intros [[H'|[H1 H2]]|[H1 [q [H2 H3]]]]; [left; exact H' | right; split; [exact H1 | exists p; split; [left; reflexivity | exact H2]] | right; split; [exact H1 | exists q; split; [right; exact H2 | exact H3]]].
+      * intros [H'|[H1 [q [[H2|H2] H3]]]]; [left; left; exact H' | subst q; left; right; split; assumption | right; split; [exact H1 | exists q; split; assumption]].
+Qed.
+
+Lemma set_mem_In (k : str) ks : set_mem k ks = true <-> In k ks.
+Proof. unfold set_mem. rewrite existsb_exists. split; [intros [z [Hz Hq]]; apply pyeq_str_eq in Hq; subst z; exact Hz | intros H; exists k; split; [exact H | apply pyeq_str_eq; reflexivity]]. Qed.
+Lemma DS_keys_sorted ks : DS (fold_left (fun acc i => d_set i [] acc) (sort_dedup ks) []) (fun k => In k ks) (fun _ _ => False).
+Proof. apply (DS_ext _ _ _ _ _) with (3 := DS_keys0 (sort_dedup ks)); [intros k; apply sort_dedup_In | intros k v; reflexivity]. Qed.
+
+Theorem source_db_get_tag_values d ks m : DInv d -> canon_dict (gen_db_get_tag_values (db_prelude d) ks m) = spec_tag_values ks m (db_rows d).
+Proof.
+  intros H. apply DInv_prelude in H. pose proof H as [Hw _]. rewrite <- (prelude_rows d). set (e := db_prelude d) in *. destruct H as [_ Hv].
+  unfold gen_db_get_tag_values, spec_tag_values. destruct (IndexGen.gen_valid (db_index e)) eqn:E.
+  - (* the index answers *)
+    destruct (Hv eq_refl) as [Hg [Ht HR]]. cbv zeta.
+    rewrite (fold_left_ext (fun acc '(i, j) => d_set i (sort_none_last j) acc) (fun acc (ij : str * list (option str)) => d_set (fst ij) (sort_none_last (snd ij)) acc)) by (intros a [i j]; reflexivity).
+    pose proof (mapvals_loop sort_none_last (IndexGen.gen_get_tag_values (db_index e) ks m) [] (gen_get_tag_values_NoDup _ ks m Hg)) as X.
+    change (map_vals sort_none_last []) with (@nil (str * list (option str))) in X. cbn [app] in X. rewrite X. clear X.
+    rewrite canon_dict_mapvals. apply source_tag_values_exact; assumption.
+  - (* the scan *)
+    cbv zeta.
+    set (c := fun tk : str => negb (nonempty_list ks && negb (set_mem tk ks))).
+    rewrite (scan_loop m (fun rst item => fold_left (fun rst '(tk, tv) => if nonempty_list ks && negb (set_mem tk ks) then rst
+               else d_set tk (if d_has tk rst then set_union_s (d_get [] tk rst) [tv] else [tv]) rst) (p_tags item) rst)).
+    rewrite (fold_left_ext _ (fun rst p => fold_left (fun rst (kv : str * option str) => if c (fst kv) then dadd (fst kv) (snd kv) rst else rst) (p_tags p) rst)).
+    2:{ intros a p. apply fold_left_ext. intros a' [tk tv]. cbn [fst snd]. unfold c. destruct (nonempty_list ks && negb (set_mem tk ks)); cbn [negb]; [reflexivity | apply dadd_alt2]. }
+    pose proof (DS_rows c (in_meas m (db_rows e)) _ _ _ (DS_keys_sorted ks)) as HD.
+    rewrite (fold_left_ext (fun acc '(i, j) => d_set i (sort_none_last j) acc) (fun acc (ij : str * list (option str)) => d_set (fst ij) (sort_none_last (snd ij)) acc)) by (intros a [i j]; reflexivity).
+    pose proof (mapvals_loop sort_none_last _ [] (proj1 HD)) as X. change (map_vals sort_none_last []) with (@nil (str * list (option str))) in X. cbn [app] in X. rewrite X. clear X.
+    rewrite canon_dict_mapvals.
+    assert (Hrows : forall p, In p (in_meas m (db_rows e)) -> dsorted (p_tags p) = true).
+    { intros p Hp. unfold in_meas in Hp. apply filter_In in Hp. apply (Hw p (proj1 Hp)). }
+    assert (Hvals : forall k v, (exists p, In p (in_meas m (db_rows e)) /\ In (k, v) (p_tags p)) <->
+                               In v (flat_map (fun p => match dget k (p_tags p) with Some v => [v] | None => [] end) (in_meas m (db_rows e)))).
+    { intros k v. rewrite in_flat_map. split.
+      - intros [p [Hp Hin]]. exists p. split; [exact Hp|]. apply (dget_In _ k v (p_tags p) (Hrows p Hp)) in Hin. rewrite Hin. left. reflexivity.
+      - intros [p [Hp Hin]]. exists p. split; [exact Hp|]. destruct (dget k (p_tags p)) as [v0|] eqn:F; [| destruct Hin]. destruct Hin as [Hin|[]]. subst v0. apply (dget_In _ k v (p_tags p) (Hrows p Hp)). exact F. }
+    unfold scan_tag_values. destruct ks as [|k0 ks'].
+    + (* no keys asked for: every key met *)
+      apply (canon_DS _ _ _ (flat_map (fun p => map fst (p_tags p)) (in_meas m (db_rows e))) (fun k => flat_map (fun p => match dget k (p_tags p) with Some v => [v] | None => [] end) (in_meas m (db_rows e))) HD).
+      * intros k. rewrite in_flat_map. split.
+        -- intros [[]|[_ [p [v [Hp Hin]]]]]. exists p. split; [exact Hp | apply (in_map_fst_pair _ k v Hin)].
+        -- intros [p [Hp Hin]]. apply in_map_fst_ex in Hin. destruct Hin as [v Hin]. right. split; [reflexivity | exists p, v; split; assumption].
+      * intros k _ v. rewrite <- Hvals. split; [intros [[]|[_ H']]; exact H' | intros H'; right; split; [reflexivity | exact H']].
+    + (* the keys asked for *)
+      apply (canon_DS _ _ _ (k0 :: ks') (fun k => flat_map (fun p => match dget k (p_tags p) with Some v => [v] | None => [] end) (in_meas m (db_rows e))) HD).
+      * intros k. split; [intros [H'|[Hc _]]; [exact H' |] | intros H'; left; exact H'].
+        unfold c in Hc. cbn [nonempty_list andb] in Hc. rewrite negb_involutive in Hc. apply set_mem_In. exact Hc.
+      * intros k Hk v. rewrite <- Hvals. split; [intros [[]|[_ H']]; exact H' | intros H'; right; split; [| exact H']].
+        unfold c. cbn [nonempty_list andb]. rewrite negb_involutive. apply set_mem_In. exact Hk.
+Qed.
